@@ -169,3 +169,62 @@ Proof.
   assert (Hap : at_pos a p = true) by exact Hp. apply at_pos_eq in Hap.
   destruct (pos_eq_at a p (forallb_In _ _ _ Hl Ha) Hap) as [q [v [-> _]]]. reflexivity.
 Qed.
+
+(* ------------------------------------------------------------------ FiniteSet::set_union(Interval) *)
+Lemma in_interval_closing : forall s e lo ro lo' ro' p,
+    (lo' = true -> lo = true) -> (ro' = true -> ro = true) ->
+    in_interval s e lo ro p = true -> in_interval s e lo' ro' p = true.
+Proof.
+  intros s e lo ro lo' ro' p H1 H2. rewrite !in_interval_pos.
+  destruct (pos_cmp (npos s) (ppos p)); destruct (pos_cmp (npos e) (ppos p));
+    destruct lo, ro, lo', ro'; simpl; intros; try reflexivity; try discriminate;
+    try (specialize (H1 eq_refl); discriminate); try (specialize (H2 eq_refl); discriminate).
+Qed.
+
+Lemma fs_union_ivl_loop_ok : forall os oe olo oro l lf rt cont st,
+    wf_set (SInterval os oe olo oro) = true -> forallb num_ok l = true -> forallb num_ok cont = true ->
+    (lf = true -> olo = true) -> (rt = true -> oro = true) ->
+    fs_union_ivl_loop os oe olo oro l lf rt cont = (Ok st, []) ->
+    forallb num_ok (snd st) = true /\
+    (fst (fst st) = true -> olo = true) /\ (snd (fst st) = true -> oro = true) /\
+    forall p, in_finite (snd st) p || in_interval os oe (fst (fst st)) (snd (fst st)) p
+              = in_finite l p || (in_finite cont p || in_interval os oe lf rt p).
+Proof.
+  intros os oe olo oro l. induction l as [|a t IH]; intros lf rt cont st Hwf Hl Hc Hlf Hrt H; simpl in H.
+  - minv. simpl. repeat split; auto.
+  - simpl in Hl. apply andb_prop in Hl. destruct Hl as [Ha Ht].
+    pose proof (wf_interval_inv _ _ _ _ Hwf) as [Hos [Hoe Hlt]].
+    destruct (ivl_contains os oe olo oro a) eqn:Ec.
+    + (* a lies in the interval *)
+      destruct (IH lf rt cont st Hwf Ht Hc Hlf Hrt H) as [I1 [I2 [I3 I4]]]. repeat split; auto.
+      intro p. rewrite I4, in_finite_cons'.
+      destruct (at_pos a p) eqn:Ep; [|reflexivity].
+      apply at_pos_eq in Ep. rewrite (ivl_contains_In' os oe olo oro a p Hwf Ha Ep) in Ec.
+      rewrite (in_interval_closing os oe olo oro lf rt p Hlf Hrt Ec). rewrite !orb_true_r. reflexivity.
+    + destruct (lf && num_eqb os a) eqn:E1.
+      * apply andb_prop in E1. destruct E1 as [-> E1]. apply num_eqb_pos in E1; auto.
+        assert (Hfalse : false = true -> olo = true) by (intro; discriminate).
+        destruct (IH false rt cont st Hwf Ht Hc Hfalse Hrt H) as [I1 [I2 [I3 I4]]]. repeat split; auto.
+        intro p. rewrite I4, in_finite_cons'. rewrite !in_interval_pos.
+        destruct (at_pos a p) eqn:Ep; [apply at_pos_eq in Ep|];
+          cmp_cases; simpl; try reflexivity; try (exfalso; pord);
+          destruct (in_finite t p), (in_finite cont p), rt; simpl; try reflexivity; exfalso.
+        all: try pord.
+        all: try (assert (at_pos a p = true) by (apply at_pos_iff; pord); congruence).
+      * destruct (rt && num_eqb oe a) eqn:E2.
+        -- apply andb_prop in E2. destruct E2 as [-> E2]. apply num_eqb_pos in E2; auto.
+           assert (Hfalse : false = true -> oro = true) by (intro; discriminate).
+           destruct (IH lf false cont st Hwf Ht Hc Hlf Hfalse H) as [I1 [I2 [I3 I4]]]. repeat split; auto.
+           intro p. rewrite I4, in_finite_cons'. rewrite !in_interval_pos.
+           destruct (at_pos a p) eqn:Ep; [apply at_pos_eq in Ep|];
+             cmp_cases; simpl; try reflexivity; try (exfalso; pord);
+             destruct (in_finite t p), (in_finite cont p), lf; simpl; try reflexivity; exfalso.
+           all: try pord.
+           all: try (assert (at_pos a p = true) by (apply at_pos_iff; pord); congruence).
+        -- minv. pose proof (nb_ins_ok _ _ _ Hm) as Hse.
+           assert (Hx : forallb num_ok x = true).
+           { apply (forallb_ok_same x (a :: cont) Hse). simpl. rewrite Ha, Hc. reflexivity. }
+           destruct (IH lf rt x st Hwf Ht Hx Hlf Hrt Hk) as [I1 [I2 [I3 I4]]]. repeat split; auto.
+           intro p. rewrite I4, (in_finite_same x (a :: cont) p Hse), !in_finite_cons'.
+           destruct (at_pos a p), (in_finite t p), (in_finite cont p), (in_interval os oe lf rt p); reflexivity.
+Qed.
